@@ -83,6 +83,9 @@ pub enum ModelError {
     BlockTooBig,
     OffsetBeyondWindow,
     ContentSizeMismatch,
+    /// a block larger than Block_Maximum_Size = min(window, 128 KiB) but not above 128 KiB: non-conforming, yet not
+    /// something C05 demands to be rejected
+    BlockAboveWindowLimit,
 }
 
 /// forward little-endian bit writer
@@ -406,7 +409,7 @@ pub fn build(spec: &SynthSpec, dict: &[u8], rep_init: [u32; 3]) -> Built {
                 SynthBlock::Seq { .. } => seq_block_out_len(b),
             };
             if stored > bmax || regen > bmax {
-                expect = Err(ModelError::BlockTooBig);
+                expect = Err(ModelError::BlockAboveWindowLimit);
                 break;
             }
         }
